@@ -55,8 +55,15 @@ def _id_pool(rng, suffix, idclass):
     return out[: rng.randint(3, 6)]
 
 
-def _payload(rng, i, ident, as_bytes=False):
+EXOTIC = ("caf\u00e9 \u2265 1\n", "line1\r\nline2\r\n", "no newline at end", "tab\tsep\n\n\n",
+          "\u00e9" * 150 + "\n", "ascii first " * 12 + "then \u00fc\u00df late\n")
+
+
+def _payload(rng, i, ident, as_bytes=False, exotic=False):
     kind = rng.random()
+    if exotic and kind < 0.5:
+        text = f"{i}:{ident}:" + EXOTIC[rng.randrange(len(EXOTIC))]
+        return {"b": text} if as_bytes else text
     if kind < 0.06:
         text = ""
     elif kind < 0.5:
@@ -74,7 +81,8 @@ def gen(rng, tier, index):
     backend = ("dir", "sqlite", "dir", "sqlite", "dir", "sqlite-mem")[index % 6]
     suffix = rng.choice(SUFFIXES)
     r = rng.random()
-    idclass = "plain" if r < 0.7 else "suffix-text" if r < 0.9 else "dotted" if r < 0.95 else "wild"
+    idclass = "plain" if r < 0.66 else "suffix-text" if r < 0.84 else "dotted" if r < 0.9 else "wild" if r < 0.94 \
+        else "exotic-payload"
     stems = _id_pool(rng, suffix, idclass)
     n_ops = rng.randint(3, 12 if tier == "quick" else 30)
     ops = []
@@ -89,13 +97,13 @@ def gen(rng, tier, index):
             ident = stem if form < 0.8 else f"{stem}.{suffix}"
         as_bytes = backend != "dir" and rng.random() < 0.3
         if r < 0.36:
-            ops.append({"op": "write", "id": ident, "data": _payload(rng, i, stem, as_bytes)})
+            ops.append({"op": "write", "id": ident, "data": _payload(rng, i, stem, as_bytes, idclass == "exotic-payload")})
         elif r < 0.60:
             if backend == "dir":
                 nid = f"{stem}.json" if rng.random() < 0.8 else ident
             else:
                 nid = ident
-            ops.append({"op": "write_nc", "id": nid, "data": _payload(rng, i, "NC-" + stem, as_bytes)})
+            ops.append({"op": "write_nc", "id": nid, "data": _payload(rng, i, "NC-" + stem, as_bytes, idclass == "exotic-payload")})
         elif r < 0.66:
             ops.append({"op": "write_log", "id": f"log{i}.log", "data": f"log {i}\n"})
         elif r < 0.78:
@@ -289,8 +297,12 @@ def compare(store, model, obs, who, opdesc, res, replay, idclass):
         for k in sorted(set(want) & set(got)):
             data, md5 = got[k]
             if not same_data(data, want[k]):
+                cls = f"C13.content/{tag}:{label}"
+                w = want[k]
+                if isinstance(w, str) and "\r" in w and same_data(data, w.replace("\r\n", "\n")):
+                    cls = f"C13.content/{be}:crlf-translated"  # cause identified: universal newlines on read
                 res.add(
-                    f"C13.content/{tag}:{label}",
+                    cls,
                     f"[{who}] after {opdesc}: {label} record {k!r} reads {str(data)[:60]!r} "
                     f"but {str(want[k])[:60]!r} was written",
                     replay,
